@@ -17,7 +17,7 @@ if os.path.exists(mp):
 
 def verdict(out):
     for ln in out.split('\n'):
-        m = re.match(r'(OK|VIOLATION|UNDECIDED|KNOWN-FINDING)\b.*?(?:obligation="([^"]*)"|reason=(.*))?$', ln)
+        m = re.match(r'(OK|VIOLATION|UNDECIDED)\b.*?(?:obligation="([^"]*)"|reason=(.*))?$', ln)
         if m:
             return m.group(1), (m.group(2) or m.group(3) or '')[:160], ('no-failing-input-found' not in ln) if m.group(1) == 'VIOLATION' else None
     return 'ERROR', out[-200:], None
